@@ -11,11 +11,13 @@ Local Open Scope N_scope.
 (* ================================================================================================ *)
 (* the sizer's member table and running total are written (Sizer.Set) and never read *)
 Definition znorm (z : sizer) : sizer := mkSizer (z_out z) [] 0 (z_crsrs z) (z_sink z).
-(* the menu's browse configuration and availability flags: Menu.Reset keeps them *)
+(* the menu's browse configuration and availability flags.  Since repair c373f7d Menu.Reset erases them, and the
+   engine simulation below uses lk = false only; the coarser equivalence (lk = true) is kept because the run loop
+   respects it as well (it never reads the browse configuration: only rendering does) *)
 Definition scrub_menu (m : menu) : menu :=
   mkMenu (m_items m) browse_zero (m_page_count m) false false (m_sink m) (m_keep m) (m_sep m) (m_has_rs m).
 Definition mnorm (lk : bool) (m : menu) : menu := if lk then scrub_menu m else m.
-(* lk = false: equal up to the dead sizer fields; lk = true: also up to the browse configuration *)
+(* lk = false: equal up to the dead sizer fields; lk = true: also up to the browse configuration (not needed any more) *)
 Definition pnorm (lk : bool) (pg : page) : page :=
   mkPage (p_map pg) (p_sink pg) (option_map (mnorm lk) (p_menu pg)) (option_map znorm (p_sizer pg)) (p_err pg) (p_extra pg).
 Definition peq (lk : bool) (a b : page) : Prop := pnorm lk a = pnorm lk b.
@@ -1543,52 +1545,19 @@ Proof.
 Qed.
 
 (* ---- relating the leftover page of the long-lived engine to the page of a new engine --------------------- *)
-Definition scrubp (pg : page) : page := upd_menu scrub_menu pg.
-Definition bro (pg : page) : option (browse * bool * bool) :=
-  option_map (fun m => (m_browse m, m_can_next m, m_can_prev m)) (p_menu pg).
-
-Lemma peq_false_true : forall a b, peq false a b -> peq true a b.
+(* Menu.Reset erases everything but separator and resource, Sizer.Reset everything but the output size (and
+   the dead fields): after the reset that resumes execution after a HALT, two pages of the same shape are
+   equivalent *)
+Lemma wreset_shape : forall lk a b, pshape a = pshape b -> peq lk (wreset a) (wreset b).
 Proof.
-  intros a b H. destruct (peq_inv false a b H) as [H1 [H2 [H3 [H4 [H5 H6]]]]].
-  apply peq_intro; try assumption.
-  destruct (p_menu a) as [ma|], (p_menu b) as [mb|]; cbn [option_map mnorm] in *; congruence.
-Qed.
-
-Lemma menu_eta : forall a b,
-  m_items a = m_items b -> m_browse a = m_browse b -> m_page_count a = m_page_count b -> m_can_next a = m_can_next b ->
-  m_can_prev a = m_can_prev b -> m_sink a = m_sink b -> m_keep a = m_keep b -> m_sep a = m_sep b -> m_has_rs a = m_has_rs b -> a = b.
-Proof. intros [] []; cbn; intros; subst; reflexivity. Qed.
-
-Lemma peq_true_bro : forall a b, peq true a b -> bro a = bro b -> peq false a b.
-Proof.
-  intros a b H Hb. destruct (peq_inv true a b H) as [H1 [H2 [H3 [H4 [H5 H6]]]]].
-  apply peq_intro; try assumption. unfold bro in Hb.
-  destruct (p_menu a) as [ma|], (p_menu b) as [mb|]; cbn [option_map mnorm] in *; try discriminate; [|reflexivity].
-  assert (Hs : scrub_menu ma = scrub_menu mb) by congruence.
-  destruct (mnorm_inv_true ma mb Hs) as (K1 & K2 & K3 & K4 & K5 & K6).
-  assert (Hb1 : m_browse ma = m_browse mb) by congruence.
-  assert (Hb2 : m_can_next ma = m_can_next mb) by congruence.
-  assert (Hb3 : m_can_prev ma = m_can_prev mb) by congruence.
-  f_equal. apply menu_eta; assumption.
-Qed.
-
-Lemma peq_false_bro : forall a b, peq false a b -> bro a = bro b.
-Proof.
-  intros a b H. destruct (peq_inv false a b H) as [_ [_ [H3 _]]]. unfold bro.
-  destruct (p_menu a) as [ma|], (p_menu b) as [mb|]; cbn [option_map mnorm] in *; congruence.
-Qed.
-
-Lemma wreset_shape_true : forall a b, pshape a = pshape b -> peq true (wreset a) (wreset b).
-Proof.
-  intros a b H. unfold pshape in H. injection H as Hm Hz.
+  intros lk a b H. unfold pshape in H. injection H as Hm Hz.
   unfold wreset, upd_menu, page_reset, page_with_error. cbn [p_map p_sink p_menu p_sizer p_err p_extra].
   apply peq_intro.
   - destruct (p_menu a), (p_menu b); reflexivity.
   - destruct (p_menu a), (p_menu b); reflexivity.
   - destruct (p_menu a) as [ma|], (p_menu b) as [mb|]; cbn [option_map] in *; try discriminate; [|reflexivity].
-    cbn [p_menu option_map mnorm]. f_equal. injection Hm as Hs Hr.
-    unfold scrub_menu, menu_reset, menu_reset_flags, set_can.
-    cbn [m_items m_browse m_page_count m_can_next m_can_prev m_sink m_keep m_sep m_has_rs]. congruence.
+    cbn [p_menu option_map]. f_equal. injection Hm as Hs Hr.
+    unfold menu_reset. cbn [m_sep m_has_rs]. rewrite Hs, Hr. reflexivity.
   - destruct (p_menu a) as [ma|], (p_menu b) as [mb|]; cbn [option_map] in *; try discriminate;
       cbn [p_sizer];
       (destruct (p_sizer a) as [za|], (p_sizer b) as [zb|]; cbn [option_map] in *; try discriminate; [|reflexivity];
@@ -1597,65 +1566,9 @@ Proof.
   - destruct (p_menu a), (p_menu b); reflexivity.
 Qed.
 
-Lemma scrubp_peq : forall a b, peq false a b -> peq false (scrubp a) (scrubp b).
-Proof.
-  intros a b H. destruct (peq_inv false a b H) as [H1 [H2 [H3 [H4 [H5 H6]]]]].
-  unfold scrubp, upd_menu.
-  destruct (p_menu a) as [ma|] eqn:Ea, (p_menu b) as [mb|] eqn:Eb; cbn [option_map mnorm] in H3; try discriminate; [|exact H].
-  apply peq_intro; cbn [p_map p_sink p_menu p_sizer p_err p_extra option_map mnorm]; congruence.
-Qed.
-
-Lemma scrubp_P0 : forall c, scrubp (P0 c) = P0 c.
-Proof. intros c. unfold P0, new_vm_page. destruct (c_sep c); destruct (0 <? c_out c); reflexivity. Qed.
-
-Lemma wreset_scrub_shape : forall a b, pshape a = pshape b -> peq false (wreset (scrubp a)) (wreset (scrubp b)).
-Proof.
-  intros a b H. apply peq_true_bro.
-  - apply wreset_shape_true. unfold scrubp. rewrite !pshape_upd_menu by (intros m; reflexivity). exact H.
-  - unfold pshape in H. injection H as Hm _. unfold bro, wreset, scrubp, upd_menu.
-    destruct (p_menu a) as [ma|] eqn:Ea, (p_menu b) as [mb|] eqn:Eb; cbn [option_map] in Hm; try discriminate;
-      unfold page_reset, page_with_error; cbn [p_map p_sink p_menu p_sizer p_err p_extra option_map]; rewrite ?Ea, ?Eb;
-      cbn [p_map p_sink p_menu p_sizer p_err p_extra option_map]; reflexivity.
-Qed.
-
 (* ---- guards (decidable) --------------------------------------------------------------------------------- *)
-Definition browse_eqb (a b : browse) : bool :=
-  Bool.eqb (b_next_avail a) (b_next_avail b) && bytes_eqb (b_next_sel a) (b_next_sel b)
-  && bytes_eqb (b_next_title a) (b_next_title b) && Bool.eqb (b_prev_avail a) (b_prev_avail b)
-  && bytes_eqb (b_prev_sel a) (b_prev_sel b) && bytes_eqb (b_prev_title a) (b_prev_title b).
-Definition bro_eqb (x y : option (browse * bool * bool)) : bool :=
-  match x, y with
-  | None, None => true
-  | Some (a, n, p), Some (a', n', p') => browse_eqb a a' && Bool.eqb n n' && Bool.eqb p p'
-  | _, _ => false
-  end.
-Lemma browse_eqb_eq : forall a b, browse_eqb a b = true -> a = b.
-Proof.
-  intros [a1 a2 a3 a4 a5 a6] [b1 b2 b3 b4 b5 b6] H. unfold browse_eqb in H. cbn in H.
-  repeat (apply andb_true_iff in H; destruct H as [H ?]).
-  repeat match goal with
-         | K : Bool.eqb _ _ = true |- _ => apply Bool.eqb_prop in K
-         | K : bytes_eqb _ _ = true |- _ => apply bytes_eqb_eq in K
-         end. subst. reflexivity.
-Qed.
-Lemma bro_eqb_eq : forall x y, bro_eqb x y = true -> x = y.
-Proof.
-  intros [[[a n] p]|] [[[a' n'] p']|] H; unfold bro_eqb in H; try discriminate; [|reflexivity].
-  apply andb_true_iff in H as [H Hp]. apply andb_true_iff in H as [H Hn].
-  apply browse_eqb_eq in H. apply Bool.eqb_prop in Hp. apply Bool.eqb_prop in Hn. subst. reflexivity.
-Qed.
-
 (* an over-long input that also fails the input pattern (K-C07-longbad) *)
 Definition input_ok_b (i : bytes) : bool := negb ((INPUT_LIMIT <? len i) && negb (valid_input_b i)).
-(* the long-lived engine with the leftover browse configuration of its menu wiped *)
-Definition scrub (e : engine) : engine := eset_v e (vset_pg (e_v e) (scrubp (v_pg (e_v e)))).
-(* the browse configuration the request's execution ends with does not depend on the one left over from
-   the previous request (K-C07-browse) *)
-Definition no_browse_leak_b (fuel : nat) (rs : rsrc) (c : config) (e : engine) (i : bytes) : bool :=
-  let e1 := fst (fst (eng_exec fuel rs c e i)) in
-  if e_execd e1
-  then bro_eqb (bro (v_pg (e_v e1))) (bro (v_pg (e_v (fst (fst (eng_exec fuel rs c (scrub e) i))))))
-  else true.
 (* the render of the request's Flush raised no BrowseError *)
 Definition no_browse_err_b (fuel : nat) (rs : rsrc) (c : config) (e : engine) (i : bytes) : bool :=
   negb (browse_err rs (fst (fst (eng_exec fuel rs c e i)))).
@@ -1673,15 +1586,6 @@ Proof.
   rewrite delivered_not_stuck by exact Hd. reflexivity.
 Qed.
 
-Lemma Linv_scrub : forall c e, Linv c e -> Linv c (scrub e).
-Proof.
-  intros c [[st ca pg w lg t] i x q d] (H1 & H2 & H3 & H4 & H5 & H6 & H7 & H8 & H9).
-  unfold Linv, scrub in *. cbn [eset_v e_initd e_exit e_exiting e_v] in *. vcbn. cbn [v_st v_pg] in *.
-  repeat (split; [assumption|]). split.
-  - unfold pg_ok, scrubp in *. rewrite pshape_upd_menu by (intros m; reflexivity). exact H8.
-  - intros Hw. rewrite <- (scrubp_P0 c). apply scrubp_peq. exact (H9 Hw).
-Qed.
-
 Lemma request_persisted_R : forall fuel rs c p i st ca,
   c_first c = None -> pw_store p = Some (snap_of st ca) -> s_code st <> [] ->
   request_persisted fuel rs c p i =
@@ -1694,38 +1598,6 @@ Proof.
   rewrite request_persisted_finish, new_engine_sess, eng_exec_fresh by exact Hf.
   rewrite Hs. cbn [store0_of sess fst snd snap_of].
   rewrite init_sc_nonempty by (cbn [s_code set_input_raw]; exact Hc). reflexivity.
-Qed.
-
-(* ---- three engines: long-lived (A), long-lived with the browse configuration wiped (S), new (B) ------------ *)
-Lemma eeq_true_false : forall A B, eeq true A B -> bro (v_pg (e_v A)) = bro (v_pg (e_v B)) -> eeq false A B.
-Proof.
-  intros A B (H1 & H2 & H3 & H4 & H5) Hb. unfold eeq. repeat (split; [assumption|]).
-  destruct H5 as (K1 & K2 & K3 & K4 & K5). unfold veq. repeat (split; [assumption|]).
-  apply peq_true_bro; assumption.
-Qed.
-Lemma eeq_false_bro : forall A B, eeq false A B -> bro (v_pg (e_v A)) = bro (v_pg (e_v B)).
-Proof. intros A B (_ & _ & _ & _ & (_ & _ & _ & _ & K)). apply peq_false_bro. exact K. Qed.
-
-Lemma three_way : forall fuel rs c input A S B,
-  erel true A B -> erel false S B -> term_clear A -> term_clear S ->
-  (e_execd (fst (fst (exec_tail fuel rs c A input))) = true ->
-   bro (v_pg (e_v (fst (fst (exec_tail fuel rs c A input))))) = bro (v_pg (e_v (fst (fst (exec_tail fuel rs c S input)))))) ->
-  let x := exec_tail fuel rs c A input in
-  let y := exec_tail fuel rs c B input in
-  (bad_pattern input = true /\ x = (fst (reset_opt c input A), true, SErr EGen None)
-                            /\ y = (fst (reset_opt c input B), true, SErr EGen None))
-  \/ (bad_pattern input = false /\ outcome_rel false x y).
-Proof.
-  intros fuel rs c input A S B Hab Hsb Hta Hts Hg x y. subst x y.
-  destruct (exec_tail_sim true fuel rs c input A B Hab Hta) as [Hbad|[Hnb Hr1]]; [left; exact Hbad|].
-  destruct (exec_tail_sim false fuel rs c input S B Hsb Hts) as [[Hbad _]|[_ Hr2]]; [congruence|].
-  right. split; [exact Hnb|].
-  destruct Hr1 as (C1 & C2 & [(X1 & X2 & X3)|(X1 & X2 & X3)]).
-  - destruct Hr2 as (D1 & D2 & [(Y1 & Y2 & Y3)|(Y1 & Y2 & Y3)]).
-    + unfold outcome_rel. split; [exact C1|]. split; [exact C2|]. left. split; [exact X1|]. split; [exact X2|].
-      apply eeq_true_false; [exact X3|]. rewrite (Hg X1). apply eeq_false_bro. exact Y3.
-    + destruct X3 as (_ & _ & _ & X3 & _). congruence.
-  - unfold outcome_rel. split; [exact C1|]. split; [exact C2|]. right. auto.
 Qed.
 
 Definition long_finish (fuel : nat) (rs : rsrc) (c : config) (x : engine * bool * stat) : engine * response :=
@@ -1769,32 +1641,24 @@ Qed.
 (* ---- one request --------------------------------------------------------------------------------------- *)
 Lemma erel_of_R : forall c e st ca pg w lg t,
   Linv c e -> e_v e = mkVm st ca pg w lg t ->
-  erel true (cleared e) (mkEng (mkVm (set_input_raw st None) ca (P0 c) w lg false) true [] false false)
-  /\ erel false (cleared (scrub e)) (mkEng (mkVm (set_input_raw st None) ca (P0 c) w lg false) true [] false false).
+  erel false (cleared e) (mkEng (mkVm (set_input_raw st None) ca (P0 c) w lg false) true [] false false).
 Proof.
   intros c e st ca pg w lg t (H1 & H2 & H3 & H4 & H5 & H6 & H7 & H8 & H9) Hv.
   destruct e as [v i x q d]. cbn [e_v e_initd e_exit e_exiting] in *. subst. cbn [v_st v_pg] in *.
-  split.
-  - exists st, None, ca, pg, (P0 c), w, lg, t, false. split; [reflexivity|]. split; [reflexivity|].
-    unfold pre_pg. destruct (getf st FLAG_WAIT); [apply wreset_shape_true; exact H8|apply peq_false_true; auto].
-  - exists st, None, ca, (scrubp pg), (P0 c), w, lg, t, false. split; [reflexivity|]. split; [reflexivity|].
-    unfold pre_pg. destruct (getf st FLAG_WAIT).
-    + rewrite <- (scrubp_P0 c). apply wreset_scrub_shape. exact H8.
-    + rewrite <- (scrubp_P0 c). apply scrubp_peq. auto.
+  exists st, None, ca, pg, (P0 c), w, lg, t, false. split; [reflexivity|]. split; [reflexivity|].
+  unfold pre_pg. destruct (getf st FLAG_WAIT); [apply wreset_shape; exact H8|auto].
 Qed.
 
 Lemma step_simulation : forall fuel rs c e p i,
-  c_first c = None -> R c e p -> input_ok_b i = true -> no_browse_leak_b fuel rs c e i = true ->
+  c_first c = None -> R c e p -> input_ok_b i = true ->
   let '(e', rl) := request_long fuel rs c e i in
   let '(p', rp) := request_persisted fuel rs c p i in
   rl = rp /\
   (r_cont rl = true -> flush_alive (r_flush rl) -> no_browse_err_b fuel rs c e i = true -> R c e' p').
 Proof.
-  intros fuel rs c e p i Hf (HL & Hst & Hw & Hlg) Hin Hleak.
-  pose proof (Linv_scrub c e HL) as HLs.
-  unfold no_browse_leak_b, no_browse_err_b. unfold no_browse_leak_b in Hleak.
+  intros fuel rs c e p i Hf (HL & Hst & Hw & Hlg) Hin.
+  unfold no_browse_err_b.
   rewrite request_long_finish. rewrite (eng_exec_Linv fuel rs c e i HL) in *.
-  rewrite (eng_exec_Linv fuel rs c (scrub e) i HLs) in Hleak.
   destruct (e_v e) as [st ca pg w lg t] eqn:Ev.
   assert (Hcode : s_code st <> []).
   { destruct HL as (_ & _ & _ & H4 & _). rewrite Ev in H4. exact H4. }
@@ -1807,20 +1671,14 @@ Proof.
     rewrite exec_tail_refused by (left; apply N.ltb_lt; exact Elim). rewrite Hv. cbn [negb].
     unfold long_finish, pers_finish. rewrite !flush_before_exec by reflexivity.
     split; [reflexivity|]. cbn [r_cont]. intros; discriminate. }
-  destruct (erel_of_R c e st ca pg w lg t HL Ev) as [Hab Hsb].
+  pose proof (erel_of_R c e st ca pg w lg t HL Ev) as Hab.
   set (B := mkEng (mkVm (set_input_raw st None) ca (P0 c) w lg false) true [] false false) in *.
   assert (Hta : term_clear (cleared e)).
   { destruct HL as (_ & _ & _ & _ & _ & H6 & _). exact H6. }
-  assert (Hts : term_clear (cleared (scrub e))).
-  { destruct HLs as (_ & _ & _ & _ & _ & H6 & _). exact H6. }
-  assert (Hg : e_execd (fst (fst (exec_tail fuel rs c (cleared e) i))) = true ->
-     bro (v_pg (e_v (fst (fst (exec_tail fuel rs c (cleared e) i)))))
-     = bro (v_pg (e_v (fst (fst (exec_tail fuel rs c (cleared (scrub e)) i)))))).
-  { intros Hx. rewrite Hx in Hleak. apply bro_eqb_eq. exact Hleak. }
-  destruct (three_way fuel rs c i (cleared e) (cleared (scrub e)) B Hab Hsb Hta Hts Hg) as [(Hbad & Hx & Hy)|(Hnb & Hrel)].
+  destruct (exec_tail_sim false fuel rs c i (cleared e) B Hab Hta) as [(Hbad & Hx & Hy)|(Hnb & Hrel)].
   - (* refused by the pattern: nothing ran *)
     rewrite Hx, Hy.
-    destruct (reset_opt_rel true c i (cleared e) B Hab) as (_ & _ & Hr2).
+    destruct (reset_opt_rel false c i (cleared e) B Hab) as (_ & _ & Hr2).
     pose proof (reset_opt_Linv c i (cleared e) (Linv_cleared c e HL)) as HL2.
     destruct Hr2 as (st2 & y2 & ca2 & pa2 & pb2 & w2 & lg2 & ta2 & tb2 & Ea & Eb & Hp2).
     rewrite Ea in *. rewrite Eb.
@@ -2003,7 +1861,7 @@ Fixpoint c07_guard (fuel : nat) (rs : rsrc) (c : config) (e : engine) (h : list 
   match h with
   | [] => True
   | i :: h' =>
-    input_ok_b i = true /\ no_browse_leak_b fuel rs c e i = true /\
+    input_ok_b i = true /\
     (alive_b (snd (request_long fuel rs c e i)) = true ->
      no_browse_err_b fuel rs c e i = true /\ c07_guard fuel rs c (fst (request_long fuel rs c e i)) h')
   end.
@@ -2016,8 +1874,8 @@ Lemma history_from_R : forall fuel rs c h e p,
   upto_stop (snd (serve_long fuel rs c e h)) = upto_stop (snd (serve_pers fuel rs c p h)).
 Proof.
   induction h as [|i h IH]; intros e p Hf HR Hg; [reflexivity|].
-  cbn [c07_guard] in Hg. destruct Hg as (G1 & G2 & G3).
-  pose proof (step_simulation fuel rs c e p i Hf HR G1 G2) as Hs.
+  cbn [c07_guard] in Hg. destruct Hg as (G1 & G3).
+  pose proof (step_simulation fuel rs c e p i Hf HR G1) as Hs.
   cbn [serve_long serve_pers].
   destruct (request_long fuel rs c e i) as [e1 rl]. destruct (request_persisted fuel rs c p i) as [p1 rp].
   destruct Hs as [Hr HR1]. subst rp. cbn [fst snd] in G3.
@@ -2034,7 +1892,7 @@ Lemma history_simulation : forall fuel rs c h w lg t,
   = upto_stop (snd (serve_pers fuel rs c (mkPw None w lg t) h)).
 Proof.
   intros fuel rs c [|i h] w lg t Hf Hfl Hg; [reflexivity|].
-  cbn [c07_guard] in Hg. destruct Hg as (G1 & G2 & G3).
+  cbn [c07_guard] in Hg. destruct Hg as (G1 & G3).
   pose proof (first_step fuel rs c w lg t i Hf Hfl) as Hs.
   cbn [serve_long serve_pers].
   destruct (request_long fuel rs c (new_engine c None w lg) i) as [e1 rl].
@@ -2053,7 +1911,7 @@ Fixpoint c07_guard_b (fuel : nat) (rs : rsrc) (c : config) (e : engine) (h : lis
   match h with
   | [] => true
   | i :: h' =>
-    input_ok_b i && no_browse_leak_b fuel rs c e i &&
+    input_ok_b i &&
     (if alive_b (snd (request_long fuel rs c e i))
      then no_browse_err_b fuel rs c e i && c07_guard_b fuel rs c (fst (request_long fuel rs c e i)) h'
      else true)
@@ -2062,8 +1920,8 @@ Fixpoint c07_guard_b (fuel : nat) (rs : rsrc) (c : config) (e : engine) (h : lis
 Lemma c07_guard_b_spec : forall fuel rs c h e, c07_guard_b fuel rs c e h = true -> c07_guard fuel rs c e h.
 Proof.
   induction h as [|i h IH]; intros e H; [exact I|].
-  cbn [c07_guard_b] in H. apply andb_true_iff in H as [H H3]. apply andb_true_iff in H as [H1 H2].
-  cbn [c07_guard]. split; [exact H1|]. split; [exact H2|].
+  cbn [c07_guard_b] in H. apply andb_true_iff in H as [H1 H3].
+  cbn [c07_guard]. split; [exact H1|].
   intros Ha. rewrite Ha in H3. apply andb_true_iff in H3 as [H4 H5]. split; [exact H4|apply IH; exact H5].
 Qed.
 
@@ -2079,19 +1937,6 @@ Theorem history_simulation_b : forall fuel rs c h,
 Proof.
   intros fuel rs c h Hf Hfl Hg. apply history_simulation; [exact Hf|apply cfg_flags_ok_b_spec; exact Hfl|].
   apply c07_guard_b_spec. exact Hg.
-Qed.
-
-(* when the long-lived menu carries no browse configuration the leak guard holds trivially *)
-Lemma no_leak_when_clean : forall fuel rs c e i,
-  scrubp (v_pg (e_v e)) = v_pg (e_v e) -> no_browse_leak_b fuel rs c e i = true.
-Proof.
-  intros fuel rs c e i H. unfold no_browse_leak_b.
-  assert (Hs : scrub e = e). { unfold scrub. rewrite H. destruct e as [[] ? ? ? ?]; reflexivity. }
-  rewrite Hs. destruct (e_execd _); [|reflexivity].
-  destruct (bro _) as [[[a n] p]|]; [|reflexivity]. unfold bro_eqb.
-  assert (Ha : browse_eqb a a = true).
-  { unfold browse_eqb. rewrite !Bool.eqb_reflx, !BytesProofs.bytes_eqb_refl. reflexivity. }
-  rewrite Ha, !Bool.eqb_reflx. reflexivity.
 Qed.
 
 (* ---- C17, long-lived engine: the refused input is the very first request of the session --------------------- *)
@@ -2211,8 +2056,9 @@ Proof.
   intros H. vm_compute in H. discriminate.
 Qed.
 
-(* K-C07-browse: Menu.Reset keeps the browse configuration.  A node that sets a "next" entry, halts,
-   and then builds a paginated page WITHOUT moving shows the entry only in the long-lived engine *)
+(* regression for K-C07-browse (repaired by c373f7d: Menu.Reset now erases the browse configuration).  A node that
+   sets a "next" entry, halts, and then builds a paginated page WITHOUT moving: before the repair the entry
+   showed up in the long-lived engine only ("root\n11:nx" against "root"); now both drivers answer alike *)
 Definition w_app_leak : app :=
   mkApp [(s2b "root"%string,
           encode_prog [IMNext (s2b "nx"%string) (s2b "11"%string); IHalt; ILoad (s2b "sk"%string) 0; IMap (s2b "sk"%string); IHalt;
@@ -2221,21 +2067,18 @@ Definition w_app_leak : app :=
         [(s2b "root"%string, s2b "root"%string); (s2b "_catch"%string, s2b "catch"%string)] []
         [(s2b "sk"%string, [mkFres (w_lines ["one"; "two"; "three"; "four"; "five"; "six"]%string) false 0 [] [] false])].
 Definition w_cfg20 : config := mkCfg 20 [] 1 0 [] [] false None.
-Lemma refuted_browse :
-  exists (a : app) (c : config) (h : list bytes),
-    c_first c = None /\ cfg_flags_ok_b c = true /\ forallb input_ok_b h = true
-    /\ c07_guard_b 1000 (app_rsrc a) c (new_engine c None [] []) h = false
-    /\ map r_out (snd (serve_long 1000 (app_rsrc a) c (new_engine c None [] []) h))
-       = [s2b "root"%string; s2b "root"%string ++ [10] ++ s2b "11:nx"%string]
-    /\ map r_out (snd (serve_pers 1000 (app_rsrc a) c (mkPw None [] [] false) h))
-       = [s2b "root"%string; s2b "root"%string]
-    /\ upto_stop (snd (serve_long 1000 (app_rsrc a) c (new_engine c None [] []) h))
-       <> upto_stop (snd (serve_pers 1000 (app_rsrc a) c (mkPw None [] [] false) h)).
+Lemma browse_regression :
+  c_first w_cfg20 = None /\ cfg_flags_ok_b w_cfg20 = true
+  /\ c07_guard_b 1000 (app_rsrc w_app_leak) w_cfg20 (new_engine w_cfg20 None [] []) [[]; s2b "x"%string] = true
+  /\ map r_out (snd (serve_long 1000 (app_rsrc w_app_leak) w_cfg20 (new_engine w_cfg20 None [] []) [[]; s2b "x"%string]))
+     = [s2b "root"%string; s2b "root"%string]
+  /\ map r_out (snd (serve_pers 1000 (app_rsrc w_app_leak) w_cfg20 (mkPw None [] [] false) [[]; s2b "x"%string]))
+     = [s2b "root"%string; s2b "root"%string]
+  /\ snd (serve_long 1000 (app_rsrc w_app_leak) w_cfg20 (new_engine w_cfg20 None [] []) [[]; s2b "x"%string])
+     = snd (serve_pers 1000 (app_rsrc w_app_leak) w_cfg20 (mkPw None [] [] false) [[]; s2b "x"%string]).
 Proof.
-  exists w_app_leak, w_cfg20, [[]; s2b "x"%string].
   split; [reflexivity|]. split; [vm_compute; reflexivity|]. split; [vm_compute; reflexivity|].
-  split; [vm_compute; reflexivity|]. split; [vm_compute; reflexivity|]. split; [vm_compute; reflexivity|].
-  intros H. vm_compute in H. discriminate.
+  split; [vm_compute; reflexivity|]. split; vm_compute; reflexivity.
 Qed.
 
 (* C17, long-lived engine, refused FIRST request: a later over-long malformed input then gets "continue" *)
